@@ -86,3 +86,29 @@ V("c11-capture-two-instants", "C11", "violation", "C11.R2", edits=[("dynamics/__
 V("c11-lla-lon-lat-swapped", "C11", "violation", "C11.R4", edits=[("scenario/config/state_config.py", "array([self.latitude * DEG2RAD, self.longitude * DEG2RAD, self.altitude])", "array([self.longitude * DEG2RAD, self.latitude * DEG2RAD, self.altitude])")])
 V("c11-lla-degrees-not-converted", "C11", "violation", "C11.R4", edits=[("scenario/config/state_config.py", "array([self.latitude * DEG2RAD, self.longitude * DEG2RAD, self.altitude])", "array([self.latitude * DEG2RAD, self.longitude, self.altitude])")])
 V("c11-n-inline-final-datetime", "C11", "pass", edits=[(TR, "        final_datetime = self.datetime_start + timedelta(seconds=final_time)\n        return ecef2eci(self.x_ecef, final_datetime)", "        return ecef2eci(self.x_ecef, self.datetime_start + timedelta(seconds=final_time))")])
+
+# ------------------------------------------------------------------------------------ C04
+TM = "physics/transforms/methods.py"
+MA = "physics/maths.py"
+RD = "physics/transforms/reductions.py"
+V("c04-revert-F4-skew", "C04", "violation", "C04.R3", revert="8e969bf")
+V("c04-rot2-sign", "C04", "violation", "C04.R3", edits=[(MA, "            [cos(angle), 0, -sin(angle)],\n            [0, 1, 0],\n            [sin(angle), 0, cos(angle)],", "            [cos(angle), 0, sin(angle)],\n            [0, 1, 0],\n            [-sin(angle), 0, cos(angle)],")])
+V("c04-sez2ecef-lon-sign", "C04", "violation", "C04.R1", edits=[(TM, "sez_2_ecef_rotation = matmul(rot3(-lon), rot2(lat - const.PI / 2))", "sez_2_ecef_rotation = matmul(rot3(lon), rot2(lat - const.PI / 2))")])
+V("c04-sez2ecef-chain-order", "C04", "violation", "C04.R1", edits=[(TM, "sez_2_ecef_rotation = matmul(rot3(-lon), rot2(lat - const.PI / 2))", "sez_2_ecef_rotation = matmul(rot2(lat - const.PI / 2), rot3(-lon))")])
+V("c04-ecef2eci-transport-sign", "C04", "violation", "C04.R1", edits=[(TM, "matmul(reduction.rot_w, x_ecef[3:]) + v_correction", "matmul(reduction.rot_w, x_ecef[3:]) - v_correction")])
+V("c04-eci2ecef-wrong-matrix", "C04", "violation", "C04.R1", edits=[(TM, "r_ecef = matmul(reduction.rot_wt, matmul(reduction.rot_rnp, x_eci[:3]))", "r_ecef = matmul(reduction.rot_w, matmul(reduction.rot_rnp, x_eci[:3]))")])
+V("c04-rsw-dropped-T", "C04", "violation", "C04.R1", edits=[(TM, "rsw_2_eci_rotation = array([r_hat, s_hat, w_hat]).T", "rsw_2_eci_rotation = array([r_hat, s_hat, w_hat])")])
+V("c04-razel-flip-differs", "C04", "violation", "C04.R1", edits=[(TM, "    return cartesian2spherical(slant_range_sez.dot(diagflat([-1, 1, 1, -1, 1, 1])))", "    return cartesian2spherical(slant_range_sez.dot(diagflat([1, -1, 1, 1, -1, 1])))")])
+V("c04-razel2sez-el-az-swapped", "C04", "violation", "C04.R1", edits=[(TM, "spherical2cartesian(rng, el, az, rng_rate, el_rate, az_rate)", "spherical2cartesian(rng, az, el, rng_rate, az_rate, el_rate)")])
+V("c04-sez2eci-lat-lon-swapped", "C04", "violation", "C04.R2", edits=[(TM, "    return ecef2eci(sez2ecef(x_sez, lat, lon), utc_date)", "    return ecef2eci(sez2ecef(x_sez, lon, lat), utc_date)")])
+V("c04-slant-range-reversed", "C04", "violation", "C04.R2", edits=[(TM, "return ecef2sez(target_ecef - sensor_ecef, lla_state[0], lla_state[1])", "return ecef2sez(sensor_ecef - target_ecef, lla_state[0], lla_state[1])")])
+V("c04-slant-range-lon-lat", "C04", "violation", "C04.R2", edits=[(TM, "return ecef2sez(target_ecef - sensor_ecef, lla_state[0], lla_state[1])", "return ecef2sez(target_ecef - sensor_ecef, lla_state[1], lla_state[0])")])
+V("c04-rnp-not-transposed", "C04", "violation", "C04.R4", edits=[(RD, "        rot_pef2tod = getRotR(utc_date, eops.delta_ut1, prec_nut.eq_equinox)\n        rot_pnr = matmul(prec_nut.rot_pn, rot_pef2tod)\n\n        return cls(\n            rot_pn=prec_nut.rot_pn,\n            rot_pnr=rot_pnr,\n            rot_rnp=rot_pnr.T,\n            rot_w=polar_motion.rot_w,\n            rot_wt=polar_motion.rot_w.T,\n            lod=eops.length_of_day,\n            eq_equinox=prec_nut.eq_equinox,\n            dut1=eops.delta_ut1,\n            date_time=utc_date,\n        )\n\n\ndef getRotR", "        rot_pef2tod = getRotR(utc_date, eops.delta_ut1, prec_nut.eq_equinox)\n        rot_pnr = matmul(prec_nut.rot_pn, rot_pef2tod)\n\n        return cls(\n            rot_pn=prec_nut.rot_pn,\n            rot_pnr=rot_pnr,\n            rot_rnp=rot_pnr,\n            rot_w=polar_motion.rot_w,\n            rot_wt=polar_motion.rot_w.T,\n            lod=eops.length_of_day,\n            eq_equinox=prec_nut.eq_equinox,\n            dut1=eops.delta_ut1,\n            date_time=utc_date,\n        )\n\n\ndef getRotR")])
+V("c04-sidereal-minus-one-dropped", "C04", "violation", "C04.R5", edits=[("dynamics/special_perturbations.py", "elapsed_days = dayOfYear(year, month, day, hours, minutes, seconds + reduction.dut1) - 1", "elapsed_days = dayOfYear(year, month, day, hours, minutes, seconds + reduction.dut1)")])
+V("c04-sidereal-dut1-dropped", "C04", "violation", "C04.R5", edits=[(RD, "            seconds + delta_ut1,\n", "            seconds,\n")])
+V("c04-month-length-edited", "C04", "violation", "C04.R6", edits=[("physics/time/conversions.py", "days_in_month = [31, 28, 31, 30, 31, 30, 31, 31, 30, 31, 30, 31]", "days_in_month = [31, 28, 31, 30, 31, 30, 31, 30, 31, 31, 30, 31]")])
+V("c04-doy-loop-bound", "C04", "violation", "C04.R6", edits=[("physics/time/conversions.py", "while (count < month) and (count < 12):", "while (count <= month) and (count < 12):")])
+V("c04-dotrot-wrong-axis", "C04", "violation", "C04.R3", edits=[(MA, "    return rot2(angle).dot(skewSymmetric(omega))", "    return rot1(angle).dot(skewSymmetric(omega))")])
+V("c04-n-sez2ecef-as-transpose", "C04", "pass", edits=[(TM, "sez_2_ecef_rotation = matmul(rot3(-lon), rot2(lat - const.PI / 2))", "sez_2_ecef_rotation = matmul(rot2(const.PI / 2 - lat), rot3(lon)).T")])
+V("c04-n-neg-form", "C04", "pass", edits=[(TM, "sez_2_ecef_rotation = matmul(rot3(-lon), rot2(lat - const.PI / 2))", "sez_2_ecef_rotation = matmul(rot3(-lon), rot2(-(const.PI / 2 - lat)))")])
+V("c04-n-matmul-operator", "C04", "pass", edits=[(TM, "r_ecef = matmul(reduction.rot_wt, matmul(reduction.rot_rnp, x_eci[:3]))", "r_ecef = reduction.rot_wt @ (reduction.rot_rnp @ x_eci[:3])")])
